@@ -478,6 +478,29 @@ def build_geometry_variants(census):
     return n
 
 
+def build_near_variants(census):
+    """Nearly equal parameters (relative 2**-40): a cache keyed on rounded, formatted or float32 parameters needs
+    two parameter sets that such a key cannot tell apart."""
+    n = 0
+    for fam in list(FAMILIES.values()):
+        if fam.internal or fam.name == "nohblackbox" or fam.cost == "heavy":
+            continue
+        q = "exactpack.solvers." + fam.classes[0]
+        cls = census.get(q)
+        if cls is None:
+            continue
+        base = dict(fam.pool[0].kwargs)
+        floats = [p for p in sorted(cls.parameters) if isinstance(base.get(p, getattr(cls, p, None)), float)
+                  and not isinstance(base.get(p, getattr(cls, p, None)), bool) and base.get(p, getattr(cls, p, None)) != 0.0]
+        for p in floats[:2]:
+            d = base.get(p, getattr(cls, p, None))
+            kw = dict(base)
+            kw[p] = d * (1.0 + 2.0 ** -40)
+            fam.pool.append(PSet(kw, fam.pool[0].pts, fam.pool[0].times, note="auto:near:" + p))
+            n += 1
+    return n
+
+
 def build_auto(path):
     """Append the committed one-at-a-time parameter variants (auto_pool.json) to the family pools."""
     import json
